@@ -321,6 +321,9 @@ func workerMain(o workerOpts) int {
 		pf.WriteAt(pbuf[:len(s)], 0)
 		atomic.StoreInt64(&w.curIdx, int64(idx))
 		atomic.StoreInt64(&w.curStart, time.Now().UnixNano())
+		if cases%200 == 0 {
+			enginePoison()
+		}
 		c := &C{Prop: p, Tier: o.tier, Seed: o.seed, Idx: idx, R: newRng(o.seed, p.ID, o.tier, idx), w: w}
 		runOneCase(p, c)
 		atomic.StoreInt64(&w.curStart, 0)
